@@ -81,10 +81,26 @@ def roundtrip_post(pre, args, kwargs, result):
     else:
         back = ctx.call("from_json", pg.from_json, data)
     facts = mechanism_facts(self, graph, top, info)
+    if not case.get("recipe"):
+        # calls observed while the repository's own tests run: their strategies hand one-shot iterables to `default=`, which
+        # leaves a defaulted Xor whose inner helper received no default (an object no list-valued default can produce); and a copy
+        # that is not well defined cannot be analysed without the recipe -- both are counted, not judged
+        for o in info["objects"].values():
+            if isinstance(o, cc.Xor) and getattr(o, "default", None):
+                inner = [c for c in o.propositions if isinstance(c, cc.Any)]
+                if not inner or not getattr(inner[0], "default", None):
+                    ctx.count("pytest-source:inconsistent-default-object(not judged)")
+                    raise monitor.OutOfScope()
+        if not adapters.is_leaf(back) and not adapters.well_defined(back)[0]:
+            ctx.count("pytest-source:copy-not-well-defined(not judged)")
+            raise monitor.OutOfScope()
     if adapters.is_leaf(back):
         ctx.check(False, "same-leaves", lambda: dict(wit, note="round trip returned a bare variable", back=repr(back)), facts)
         return True
     g2, t2, i2 = adapters.graph_of(back)
+    if not adapters.acyclic(g2, t2):
+        ctx.check(False, "same-leaves", lambda: dict(wit, note="the copy has a cyclic id graph", copy=adapters.model_text(back)), facts)
+        return True
     l1 = {i: tuple(graph[i]["b"]) for i in refmodel.leaves(graph, top)}
     l2 = {i: tuple(g2[i]["b"]) for i in refmodel.leaves(g2, t2)}
     ctx.check(l1 == l2, "same-leaves", lambda: dict(wit, original_leaves={str(k): v_ for k, v_ in l1.items()}, copy_leaves={str(k): v_ for k, v_ in l2.items()}), facts)
@@ -127,11 +143,17 @@ def roundtrip_post(pre, args, kwargs, result):
         p1 = self.to_ge_polyhedron(True)
         p2 = back.to_ge_polyhedron(True)
         d1, d2 = self.default_prios, back.default_prios
-        ctx.check(digest.canon_prios(self, d1) == digest.canon_prios(back, d2), "config:default-prios",
+        # generated helper ids may be regenerated under another name (the id digest contains the sign as it was passed), so two
+        # occurrences of one definition can end up under two ids in the copy: priorities are compared as a set of (canonical
+        # name, priority); polyhedra only when the canonical column names are unique on both sides
+        ctx.check(set(digest.canon_prios(self, d1)) == set(digest.canon_prios(back, d2)), "config:default-prios",
                   lambda: dict(wit, before=digest.canon_prios(self, d1), after=digest.canon_prios(back, d2)), facts)
         c1 = digest.canon_poly(self, pnd_cfg(self, p1))
         c2 = digest.canon_poly(back, pnd_cfg(back, p2))
-        ctx.check(c1 == c2, "config:polyhedron", lambda: dict(wit, before=c1, after=c2), facts)
+        if len(set(c1[0])) == len(c1[0]) and len(set(c2[0])) == len(c2[0]):
+            ctx.check(c1 == c2, "config:polyhedron", lambda: dict(wit, before=c1, after=c2), facts)
+        else:
+            ctx.count("config:polyhedron:duplicate-definition-under-two-generated-ids(not judged)")
         c14.clear_caches()
     if refmodel.depth(graph, top) >= 2:
         ctx.nt(refmodel.recipe_digest(case["recipe"]) if case.get("recipe") else refmodel.shape_digest(graph, top))
